@@ -2547,6 +2547,17 @@ class Ctx:
         """Evaluate one rule.  A rule that turns out undecidable is recorded and the remaining rules are still
         evaluated: a violation established by any rule is reported whatever the order of evaluation, and a run in which
         some rule was undecidable and none was violated ends as ANALYSIS-ERROR (exit 2) all the same."""
+        import re as _re
+
+        # rules R<nn>.x read one model of the code (the converters, the sort function, the reader ...).  Once a rule of
+        # a family could not recognise that code, the family's later rules would judge a half-understood model: they are
+        # not evaluated (the run is undecidable anyway); rules of other families are.
+        m_ = _re.match(r"r(\d\d)_", getattr(rule_fn, "__name__", ""))
+        fam = f"R{m_.group(1)}" if m_ else None
+        failed = {d.rule.split(".")[0] for d in self.deferred}
+        if fam is not None and fam in failed:
+            self.notes.append(f"{rule_fn.__name__} not evaluated: an earlier rule of {fam} was undecidable on this tree")
+            return None
         try:
             return rule_fn(self, *args, **kwargs)
         except AnalysisError as e:
